@@ -49,7 +49,7 @@ func H_C03_programs() {
 		vDone()
 		return
 	}
-	env := c01Setup(l, vParam("VALS"))
+	env := c01Setup(toks, vParam("VALS"))
 	var r *variants.Variant
 	var everr error
 	panicked = guarded(func() { r, everr = calc.EvaluateUsingVariablesAndFunctions(env.vars, env.funcs) })
